@@ -1098,6 +1098,30 @@ func verifYamlJson(n JsonNode) bool {
 // ---------------------------------------------------------------------
 // C08: set and multiset hunks have set / bag semantics, independent of the order of the target.
 
+// verifYamlText (C16, C13): a YAML text is either refused or read as a document that is an ordinary
+// document: it can be rendered as JSON and as YAML without a crash, and both renderings read back
+// as an equal document.
+func verifYamlText(text string) (msg string) {
+	defer func() {
+		if x := recover(); x != nil {
+			msg = fmt.Sprint("panic: ", x)
+		}
+	}()
+	n, err := ReadYamlString(text)
+	if err != nil || isVoid(n) {
+		return ""
+	}
+	j, err := ReadJsonString(n.Json())
+	if err != nil || !j.Equals(n) || !n.Equals(j) {
+		return "the JSON rendering of the document read from YAML does not read back as an equal document"
+	}
+	y, err := ReadYamlString(n.Yaml())
+	if err != nil || !y.Equals(n) || !n.Equals(y) {
+		return "the YAML rendering of the document read from YAML does not read back as an equal document"
+	}
+	return ""
+}
+
 // verifSetSemantics: apply the root-level set/multiset hunks of a.Diff(b, options) to target c and
 // compare with a reference that removes exactly the listed members (failing when one is absent, or
 // not present often enough for a multiset) and adds the listed ones.
